@@ -6,6 +6,8 @@
                          and no copy from the input packet into the output has an open-ended range
   C07.d decision order   in replace_raw the "rewritten name would exceed 255 bytes" refusal is decided only for names that matched:
                          after passing that test no path returns Ok(None) ("not a match")
+  C07.e label boundary   in replace_raw every path that returns a rewritten name has established that the comparison start
+                         name.len() - source_name.len() coincides with a label boundary of the name (typestate over the label walk)
   (argument validation on a fresh vector and commit-after-reparse are decided under C10.a)
 
 Not decided: which names match (label-aligned, case-insensitive comparison of run-time bytes), identity-rename equality.
@@ -17,63 +19,6 @@ from rules import reemit, layout
 RS = 'renamer::Renamer::rename_response_section'
 TOP = 'renamer::Renamer::rename_with_raw_names'
 RR = 'renamer::Renamer::replace_raw'
-
-
-def open_ended_rule(ctx, facts, cfg):
-    rid = 'C07.c'
-    if facts.fn(TOP) is None:
-        ctx.missing(rid, TOP)
-        return
-    seen, _, _, _ = facts.reach([TOP])
-    n = 0
-    for k in sorted(seen):
-        if not (k.startswith('renamer::') or k.startswith('parsed_packet::ParsedPacket::copy_')):
-            continue
-        f = facts.fns[k]
-        defs = F.single_defs(f)
-        for bi, b in F.blocks(f):
-            t = b['term']
-            if t['k'] == 'call' and (F.call_path(t) or '').split('::')[-1] in ('extend', 'extend_from_slice') and len(t['args']) > 1:
-                cur = t['args'][1]
-                idx = None
-                base_packet = False
-                for _ in range(10):
-                    if cur.get('k') not in ('copy', 'move'):
-                        break
-                    pl = cur['place']
-                    if any(fl[1] == 'packet' for fl in F.fields_of(pl)):
-                        base_packet = True
-                    d = defs.get(pl['local'])
-                    if d is None:
-                        break
-                    if d[0] == 'call':
-                        p = F.call_path(d[1]) or ''
-                        if 'ndex' in p and len(d[1]['args']) > 1:
-                            e_i = F.expr(f, defs, d[1]['args'][1])
-                            bounded = e_i[0] == 'agg' and e_i[1] in ('std::ops::Range', 'std::ops::RangeTo', 'std::ops::RangeInclusive', 'std::ops::RangeToInclusive')
-                            if idx is None or bounded:
-                                idx = e_i if (idx is None or bounded) else idx
-                            cur = d[1]['args'][0]
-                            continue
-                        if p.endswith('ParsedPacket::packet') or p.endswith('::packet'):
-                            base_packet = True
-                        break
-                    rv = d[1]
-                    if rv['k'] in ('use', 'cast'):
-                        cur = rv['x']
-                    elif rv['k'] in ('ref', 'rawptr'):
-                        cur = {'k': 'copy', 'place': rv['place']}
-                    else:
-                        break
-                if base_packet:
-                    n += 1
-                    open_ = idx is not None and idx[0] == 'agg' and idx[1] == 'std::ops::RangeFrom'
-                    ctx.instance(rid, '%s copies a bounded range of the input packet at %s' % (k.split('::')[-1], t['at']), ok=not open_, site=t['at'])
-                    if open_:
-                        ctx.violation(rid, k, 'open-ended-copy', '%s appends `packet[a..]` (everything up to the end of the input) to the output: records behind the copied one are emitted twice' % k.split('::')[-1],
-                                      site=t['at'], config=cfg)
-    if n < 4:
-        ctx.violation(rid, '<floor>', 'copies from the input packet', 'found %d bounded copies from the input packet in the renamer, expected at least 4' % n, kind='below-floor')
 
 
 class DecisionAu(Automaton):
@@ -126,6 +71,105 @@ def decision_rule(ctx, facts, cfg):
                       'non-matching name makes the whole rename fail' % limit, site=f['at'], path=flow.describe_path(RR, w), config=cfg)
 
 
+class BoundaryAu(Automaton):
+    """Typestate of replace_raw: which locals are known to sit on a label boundary of `name` (0, or a boundary + name[boundary] + 1),
+    whether the comparison start  name.len() - source_name.len()  has been found equal to such a local, and the last value put in _0.
+    state = (frozenset(boundary locals), aligned, ret)"""
+    init = (frozenset(), False, None)
+
+    def __init__(self, facts):
+        self.facts = facts
+        self.defs = {}
+
+    def _defs(self, f):
+        if f['key'] not in self.defs:
+            self.defs[f['key']] = F.single_defs(f)
+        return self.defs[f['key']]
+
+    @staticmethod
+    def _is_start(e):
+        """name.len() - source_name.len()  (parameters 1 and 3)"""
+        def is_len(x, prm):
+            return x[0] == 'call' and x[1].endswith('::len') and x[2] and x[2][0][0] in ('ref', 'load') and x[2][0][1].get('local') == prm
+        return e[0] == 'binop' and e[1] == 'Sub' and is_len(e[2], 1) and is_len(e[3], 3)
+
+    def _label_step(self, f, defs, e, bset):
+        """W + (name[W] as usize + 1) in any operand order, W a boundary local -> W"""
+        if not (e[0] == 'binop' and e[1] == 'Add'):
+            return None
+        for a, b in ((e[2], e[3]), (e[3], e[2])):
+            if a[0] != 'local' or a[1] not in bset:
+                continue
+            if not (b[0] == 'binop' and b[1] == 'Add'):
+                continue
+            for c, d in ((b[2], b[3]), (b[3], b[2])):
+                if d != ('const', 1):
+                    continue
+                while c[0] == 'cast':
+                    c = c[2]
+                if c[0] == 'load' and c[1].get('local') == 1 and len(c[1]['proj']) == 2 and c[1]['proj'][1]['k'] == 'index':
+                    il = c[1]['proj'][1]['local']
+                    di = defs.get(il)
+                    src = di[1]['x']['place']['local'] if di and di[0] == 'rv' and di[1]['k'] == 'use' and di[1]['x']['k'] in ('copy', 'move') and not di[1]['x']['place']['proj'] else il
+                    if src == a[1]:
+                        return a[1]
+        return None
+
+    def on_stmt(self, q, f, bi, s, env):
+        bset, aligned, ret = q
+        if s['k'] != 'assign' or s['place']['proj']:
+            return q
+        L = s['place']['local']
+        defs = self._defs(f)
+        if L == 0 and s['rv']['k'] == 'aggregate' and s['rv'].get('variant') == 'Ok':
+            e = F.expr(f, defs, s['rv']['ops'][0])
+            return (bset, aligned, 'OkNone' if e[0] == 'agg' and e[2] == 'None' else 'OkSome')
+        if f['locals'][L].get('k') != 'int' or L in defs:
+            return q   # only multiply-assigned integer variables carry the typestate; temporaries are looked through by expr()
+        e = F.expr_rv(f, defs, s['rv'])
+        if e == ('const', 0):
+            return (bset | {L}, aligned, ret)
+        if self._label_step(f, defs, e, bset) is not None:
+            return (bset | {L}, aligned, ret)
+        if e[0] == 'local' and e[1] in bset:
+            return (bset | {L}, aligned, ret)
+        if self._is_start(e) and aligned:
+            return (bset | {L}, aligned, ret)
+        return (bset - {L}, aligned, ret)
+
+    def on_edge(self, q, f, bi, t, value, target, env):
+        bset, aligned, ret = q
+        e = F.expr(f, self._defs(f), t['discr'])
+        if e[0] == 'binop' and e[1] in ('Eq', 'Ne'):
+            for a, b in ((e[2], e[3]), (e[3], e[2])):
+                if a[0] == 'local' and a[1] in bset and self._is_start(b):
+                    truth = (value != 0) if value is not None else all(v == 0 for v, _ in t['targets'])
+                    if truth == (e[1] == 'Eq'):
+                        return (bset, True, ret)
+        return q
+
+
+def boundary_rule(ctx, facts, cfg):
+    rid = 'C07.e'
+    f = facts.fn(RR)
+    if f is None:
+        ctx.missing(rid, RR)
+        return
+    flow = PathFlow(facts, BoundaryAu(facts))
+    exits = flow.summary(RR, BoundaryAu.init)
+    some = [(q, kind) for (q, kind) in exits if kind == 'Ok' and q[2] == 'OkSome']
+    bad = [(q, kind) for (q, kind) in some if not q[1]]
+    ctx.instance(rid, 'replace_raw: every path returning a rewritten name has found name.len() - source_name.len() equal to a label boundary of the name (%d exit state(s))' % len(some),
+                 ok=bool(some) and not bad, site=f['at'])
+    if not some:
+        ctx.violation(rid, RR, 'no-some-exit', 'no path returning Ok(Some(..)) found in replace_raw', kind='undecided', config=cfg)
+    for (q, kind) in bad[:1]:
+        w = flow.witness(RR, BoundaryAu.init, q, kind)
+        ctx.violation(rid, RR, 'suffix-not-label-aligned', 'replace_raw can return a rewritten name on a path where the comparison start name.len() - source_name.len() was never found equal to a label '
+                      'boundary of the name (0, or a boundary + its length byte + 1): in suffix mode a name that merely ends with the bytes of the source (a near miss inside a label) is rewritten',
+                      site=f['at'], path=flow.describe_path(RR, w), config=cfg)
+
+
 def default_arm_rule(ctx, facts, cfg):
     """the default arm copies exactly rdlen bytes starting behind the 10-byte header"""
     rid = 'C07.b'
@@ -159,6 +203,7 @@ def run(ctx):
         reemit.dispatch_rule(ctx, facts, cfg, 'C07.b', RS, 'renaming')
         default_arm_rule(ctx, facts, cfg)
         reemit.cursor_rule(ctx, facts, cfg, 'C07.c', [TOP])
-        open_ended_rule(ctx, facts, cfg)
+        reemit.open_ended_rule(ctx, facts, cfg, 'C07.c', TOP, ('renamer::',), 4, 'the renamer')
         decision_rule(ctx, facts, cfg)
+        boundary_rule(ctx, facts, cfg)
     ctx.trust('analysis/interp.py contracts; helpers above the size threshold are havocked for the accounting (only facts local to rename_response_section are used)')
